@@ -182,7 +182,10 @@ def rpc_type_imports(a):
 def iam_types(a):
     a.need_module('google.iam.v1.iam_policy_pb2')
     a.rpc(method('GetShelfPolicy', '.google.iam.v1.GetIamPolicyRequest', '.google.iam.v1.Policy',
-                 http=('get', '/v1/{resource=shelves/*}:getPolicy'), sigs=['resource']))
+                 http=('get', '/v1/{resource=shelves/*}:getPolicy'), sigs=['resource']),
+          # a flattened *repeated* field of a plain-protobuf request from another package
+          method('TestShelfPermissions', '.google.iam.v1.TestIamPermissionsRequest', '.google.iam.v1.TestIamPermissionsResponse',
+                 http=('post', '/v1/{resource=shelves/*}:testPermissions', '*'), sigs=['resource,permissions']))
 
 
 @edit
@@ -451,9 +454,12 @@ def resource_separators(a):
                   resource=(f'{DOM}/Edition', 'shelves/{shelf}/editions/{year}-{print}~{lang}')))
     a.msg(message('Wild', [field('name', 1, 'string')], resource=(f'{DOM}/Wild', '*')))
     a.msg(message('Tail', [field('name', 1, 'string')], resource=(f'{DOM}/Tail', 'tails/{tail=**}')))
+    # a singleton sub-resource: literal text after the last variable
+    a.msg(message('ShelfSettings', [field('name', 1, 'string')], resource=(f'{DOM}/ShelfSettings', 'shelves/{shelf}/settings')))
     a.msg(message('GetEditionRequest', [field('name', 1, 'string', ref=f'{DOM}/Edition'),
                                         field('wild', 2, 'string', ref=f'{DOM}/Wild'),
-                                        field('tail', 3, 'string', ref=f'{DOM}/Tail')]))
+                                        field('tail', 3, 'string', ref=f'{DOM}/Tail'),
+                                        field('settings', 4, 'string', ref=f'{DOM}/ShelfSettings')]))
     a.rpc(method('GetEdition', Q('GetEditionRequest'), Q('Edition'), http=('get', '/v1/{name=shelves/*/editions/*}')))
 
 
